@@ -197,7 +197,8 @@ def exec_call(ctx, league, op, tracer=None):
     league.ensure(flat(names))
     if op["op"] == "RATE":
         tau_eff = dec(op["tau"]) if "tau" in op else dec(league.cfg["kwargs"]["tau"])
-        rs = league.reseed_out_of_domain(names, tau_zero=(tau_eff == 0))
+        lim_eff = op["limit_sigma"] if "limit_sigma" in op else bool(league.cfg["kwargs"]["limit_sigma"])
+        rs = league.reseed_out_of_domain(names, tau_zero=(tau_eff == 0), limit=bool(lim_eff))
     else:
         rs = league.reseed_out_of_domain(names, tau_zero=True)
     if rs:
@@ -1260,7 +1261,8 @@ class StoreDriver:
         self.B.ensure(flat(names))
         self.A.ensure(flat(names))
         tau_eff = dec(inner["tau"]) if "tau" in inner else dec(ctx.cfg["kwargs"]["tau"])
-        self.B.reseed_out_of_domain(names, tau_zero=(tau_eff == 0))
+        lim_eff = inner["limit_sigma"] if "limit_sigma" in inner else bool(ctx.cfg["kwargs"]["limit_sigma"])
+        self.B.reseed_out_of_domain(names, tau_zero=(tau_eff == 0), limit=bool(lim_eff))
         teams = self.B.teams_of(names)
         kw = rate_kwargs(inner)
         lc = S.LineCounter(crash_at=op["at"])
@@ -1337,7 +1339,7 @@ def _op_ABORT(self, op):
     fired = []
     for L in (self.A, self.B):
         L.ensure(flat(names))
-        L.reseed_out_of_domain(names, tau_zero=(tau_eff == 0))
+        L.reseed_out_of_domain(names, tau_zero=(tau_eff == 0), limit=bool(inner["limit_sigma"] if "limit_sigma" in inner else ctx.cfg["kwargs"]["limit_sigma"]))
         teams = L.teams_of(names)
         lc = S.LineCounter(crash_at=op["at"])
         st, val = lc.run(lambda: L.model.rate(teams, **dict(kw)))
